@@ -65,6 +65,7 @@ func runGossip(s *sim.Sim, o gopts) {
 	type editor struct {
 		id      int
 		home    int
+		lockHome int
 		lastTS  int64
 		lockTS  int64
 		owner   bool
@@ -74,7 +75,9 @@ func runGossip(s *sim.Sim, o gopts) {
 	}
 	var editors []*editor
 	for i := 0; i < nEditors; i++ {
-		editors = append(editors, &editor{id: i, home: s.Choose(n, "editor-home"), state: ring.PartitionPending})
+		// the state of a partition and its state-change lock are separate last-writer-wins registers: they may be
+		// written on different nodes
+		editors = append(editors, &editor{id: i, home: s.Choose(n, "editor-home"), lockHome: s.Choose(n, "lock-home"), state: ring.PartitionPending})
 	}
 	faultsOn := !w.fair && s.Chance(0.8, "faults-enabled")
 	usePushPull := !w.fair
@@ -88,6 +91,12 @@ func runGossip(s *sim.Sim, o gopts) {
 	collisionsResolved := 0
 	lateDelivered := false
 	dropped, healed := 0, 0
+	type ackedLock struct {
+		ts        int64
+		val       bool
+		node, inc int
+	}
+	ackedLocks := map[int32]ackedLock{} // partition -> last acknowledged lock change (on a node that was not restarted since)
 	acked := map[string]int64{}  // entry id -> highest acknowledged timestamp (on a node that was not restarted afterwards)
 	ackNode := map[string]int{} // and the node (with incarnation) that acknowledged it
 	ackInc := map[string]int{}
@@ -256,7 +265,11 @@ func runGossip(s *sim.Sim, o gopts) {
 			kind = "state"
 		case s.Chance(0.3, "change-tokens"):
 			kind = "tokens"
+			if s.Chance(0.4, "grow-in-place") {
+				kind = "grow" // like verifyTokens: append to the token list the store handed out, sort, publish
+			}
 		}
+		growTok := wr.pool[s.Choose(len(wr.pool), "grow-token")]
 		newState := []ring.InstanceState{ring.ACTIVE, ring.LEAVING, ring.PENDING, ring.JOINING}[s.Choose(4, "state")]
 		var newTokens []uint32
 		for _, t := range wr.pool {
@@ -305,6 +318,15 @@ func runGossip(s *sim.Sim, o gopts) {
 						e.State = newState
 					case "tokens", "register":
 						e.Tokens = append([]uint32(nil), newTokens...)
+					case "grow":
+						if stored, ok := d.Ingesters[wr.id]; ok && fmt.Sprint(stored.Tokens) == fmt.Sprint(wr.tokens) {
+							// Clone() shares the token storage with the store ("must be treated as read-only"): only a token
+							// larger than all present ones is appended, so nothing the store can see is rewritten
+							if n := len(stored.Tokens); n == 0 || growTok > stored.Tokens[n-1] {
+								e.Tokens = append(stored.Tokens, growTok) // may share storage with what the store handed out
+								s.Probe("tokens-grown-in-place")
+							}
+						}
 					}
 					e.Timestamp = now
 					ts = e.Timestamp
@@ -384,12 +406,15 @@ func runGossip(s *sim.Sim, o gopts) {
 		})
 	}
 	editorOp := func(ed *editor) {
+		kind := s.Choose(6, "editor-op")
 		nd := w.nodes[ed.home]
+		if kind == 2 {
+			nd = w.nodes[ed.lockHome]
+		}
 		if !nd.alive || ed.busy {
 			return
 		}
 		ed.busy = true
-		kind := s.Choose(6, "editor-op")
 		ownerID := fmt.Sprintf("o%d", ed.id)
 		inc := nd.incarnation
 		s.Go(fmt.Sprintf("edit-%d", ed.id), func() {
@@ -398,6 +423,8 @@ func runGossip(s *sim.Sim, o gopts) {
 			declined := false
 			removedOwner, removedPart := false, false
 			var fUnix int64
+			var lockTS int64
+			var lockVal bool
 			err := nd.partCl.CAS(ctx, partKey, func(in interface{}) (interface{}, bool, error) {
 				d := ring.GetOrCreatePartitionRingDesc(in)
 				now := time.Now()
@@ -407,6 +434,9 @@ func runGossip(s *sim.Sim, o gopts) {
 				removedOwner, removedPart = false, false
 				pid := int32(ed.id)
 				switch {
+				case !d.HasPartition(pid) && kind == 2:
+					declined = true // the lock writer never creates the partition
+					return nil, false, nil
 				case !d.HasPartition(pid):
 					if now.Unix() <= ed.lastTS {
 						declined = true
@@ -436,6 +466,7 @@ func runGossip(s *sim.Sim, o gopts) {
 						return nil, false, nil
 					}
 					ed.lockTS = now.Unix()
+					lockTS, lockVal = now.Unix(), !p.StateChangeLocked
 				case kind == 3:
 					if cur, ok := d.Owners[ownerID]; ok && now.Unix() <= cur.UpdatedTimestamp {
 						declined = true
@@ -485,6 +516,10 @@ func runGossip(s *sim.Sim, o gopts) {
 							s.Fail("tombstone-not-stamped-with-removal-time", "partition", "node %s removed partition %d at %d; it now stores state=%v ts=%d (present=%v)", nd.name, ed.id, fUnix, p.State, p.StateTimestamp, ok)
 						}
 					}
+				}
+				if err == nil && !declined && lockTS > 0 && nd.alive && nd.incarnation == inc {
+					ackedLocks[int32(ed.id)] = ackedLock{ts: lockTS, val: lockVal, node: nd.idx, inc: inc}
+					s.Probe("lock-change-acknowledged")
 				}
 				if err == nil && !declined && key != "" {
 					if strings.HasPrefix(key, "p") && ts > ed.lastTS {
@@ -604,6 +639,16 @@ func runGossip(s *sim.Sim, o gopts) {
 			cut := len(sa) - 3
 			if len(fr) > 0 {
 				cut = len(sa) - len(fr[len(fr)-1])/2
+			}
+			// or only a few bytes short / inside the length prefix of the last frame
+			switch k := s.Choose(8, "truncate-where"); {
+			case k >= 1 && k <= 4:
+				cut = len(sa) - k
+			case k == 5 && len(fr) > 0:
+				cut = len(sa) - len(fr[len(fr)-1]) + 2
+			}
+			if cut < 0 {
+				cut = 0
 			}
 			pa.payload = sa[:cut]
 			s.Fault("pushpull-truncated")
@@ -951,6 +996,28 @@ func runGossip(s *sim.Sim, o gopts) {
 				first, firstNode = c, nd.name
 			} else if c != first {
 				s.Fail("no-convergence", "", "key %s after quiescence (%d gossip rounds, push/pull=%v): node %s shows [%s], node %s shows [%s]; raw: %s", key, rounds, usePushPull, firstNode, first, nd.name, c, w.allRaw())
+			}
+		}
+	}
+	// an acknowledged lock change is visible everywhere (unless a later lock change or the partition's removal superseded it)
+	for pid, al := range ackedLocks {
+		if !w.nodes[al.node].alive || w.nodes[al.node].incarnation != al.inc {
+			continue
+		}
+		if _, removed := w.removedAt[fmt.Sprintf("p%d", pid)]; removed {
+			continue // removed (and possibly created anew) since
+		}
+		for _, a := range alive {
+			raw, _ := w.nodes[a].raw(partKey).(*ring.PartitionRingDesc)
+			if raw == nil {
+				continue
+			}
+			p, ok := raw.Partitions[pid]
+			if !ok || p.State == ring.PartitionDeleted || p.StateChangeLockedTimestamp > al.ts {
+				continue
+			}
+			if p.StateChangeLockedTimestamp < al.ts || p.StateChangeLocked != al.val {
+				s.Fail("acknowledged-update-lost", "partition-lock", "the lock change of partition %d (locked=%v at %d) was acknowledged on %s; after quiescence node %s holds locked=%v/%d: %s", pid, al.val, al.ts, w.nodes[al.node].name, w.nodes[a].name, p.StateChangeLocked, p.StateChangeLockedTimestamp, w.nodes[a].rawCanon(partKey))
 			}
 		}
 	}
